@@ -258,7 +258,7 @@ PROPS = {
     ),
     "C10": dict(
         module="Evl.Props.C10",
-        theorems=["Evl.C10.shape", "Evl.C10.filterElems_length", "Evl.C10.length_preserved", "Evl.C10.identity", "Evl.C10.tree_shape", "Evl.C10.tree_identity", "Evl.C10.tagged_public_preserved", "Evl.C10.tagged_identity"],
+        theorems=["Evl.C10.shape", "Evl.C10.filterElems_length", "Evl.C10.length_preserved", "Evl.C10.identity", "Evl.C10.tree_shape", "Evl.C10.tree_identity", "Evl.C10.tagged_public_preserved", "Evl.C10.tagged_shape", "Evl.C10.tagged_identity"],
         runs=[ENC_RUN, ENC_TREE_RUN, ENC_TAG_RUN], oracle_prefixes=["C10"], models=["M7 Encrypt (flat structs)", "M7t EncryptTree (nested values)", "M7g EncryptTag (Taggable maps, pointer tags)"],
         trusted_base=TB_COMMON, assumptions=ENC_ASSUME + ["partial: 'the input is not modified' is decided by the deep before/after snapshot comparison of the harness on every case; Go-level aliasing is outside the value model"],
         rule=ENC_RULE,
